@@ -28,7 +28,10 @@ type rbox struct {
 	mt, mb float64
 	pt, pb float64 // padding + border, top / bottom
 	hAuto  bool
-	hv     float64 // used content height when !hAuto
+	hv     float64 // content height that follows from 'height' when !hAuto (before min/max-height)
+	// §10.7: content-box values of min-height (0 when not set) and max-height (+Inf when none)
+	minH, maxH float64
+	minPctZero bool // min-height is a percentage whose used value is 0
 
 	through bool // top and bottom margins are adjoining (§8.3.1): the box is collapsed through
 	// emptyByReading: collapsed through only under the second reading of adjoining(); under
@@ -106,8 +109,11 @@ func (r *rbox) horizontal() {
 	// content-box value of a width-like property (box-sizing, floored at zero)
 	conv := func(d dim) float64 {
 		v := d.used(cb)
-		if s.borderBox {
+		switch {
+		case s.borderBox:
 			v = math.Max(0, v-pb)
+		case s.paddingBox:
+			v = math.Max(0, v-r.pl-r.pr)
 		}
 		return v
 	}
@@ -169,8 +175,39 @@ func (r *rbox) verticalValues() {
 			r.hAuto, r.hv = false, s.h.v*r.parent.hv/100
 		}
 	}
-	if !r.hAuto && s.borderBox {
-		r.hv = math.Max(0, r.hv-r.pt-r.pb)
+	// content-box value of a height-like property (box-sizing, floored at zero)
+	conv := func(v float64) float64 {
+		switch {
+		case s.borderBox:
+			v = math.Max(0, v-r.pt-r.pb)
+		case s.paddingBox:
+			v = math.Max(0, v-padT-padB)
+		}
+		return v
+	}
+	if !r.hAuto {
+		r.hv = conv(r.hv)
+	}
+	// §10.7: a percentage min-height / max-height refers to the height of the containing block;
+	// if that height is not specified explicitly the percentage is treated as 0 / none.
+	cbDefinite := r.parent != nil && !r.parent.hAuto
+	r.minH, r.maxH = 0, math.Inf(1)
+	switch s.minh.k {
+	case dPx:
+		r.minH = conv(s.minh.v)
+	case dPct:
+		if cbDefinite {
+			r.minH = conv(s.minh.v * r.parent.hv / 100)
+		}
+		r.minPctZero = r.minH == 0
+	}
+	switch s.maxh.k {
+	case dPx:
+		r.maxH = conv(s.maxh.v)
+	case dPct:
+		if cbDefinite {
+			r.maxH = conv(s.maxh.v * r.parent.hv / 100)
+		}
 	}
 	r.hasLine = s.text != txNone
 	for _, k := range r.kids {
@@ -239,11 +276,17 @@ func (d *refDoc) adjoining(emptyReading bool) {
 			// computed value is the percentage); implementations look at the used value:
 			// second ambiguous case, same treatment
 			zeroPct := r.spec.h.k == dPct && !r.hAuto && r.hv == 0
-			if zeroPct {
-				d.ambiguous = true
-			}
-			if r.heightZeroOrAuto() || zeroPct && emptyReading {
-				d.union(top(r), bottom(r))
+			// likewise "zero computed min-height": a percentage min-height whose used value is 0
+			// (a percentage of a height that is not specified explicitly, or of 0) does not
+			// compute to zero: third ambiguous case, same treatment
+			if (r.heightZeroOrAuto() || zeroPct) && r.minH == 0 {
+				byReading := zeroPct || r.minPctZero
+				if byReading {
+					d.ambiguous = true
+				}
+				if !byReading || emptyReading {
+					d.union(top(r), bottom(r))
+				}
 			}
 		}
 	}
@@ -254,7 +297,7 @@ func (d *refDoc) adjoining(emptyReading bool) {
 		}
 		for i := len(d.boxes) - 1; i >= 0; i-- {
 			r := d.boxes[i]
-			if r.through || len(r.kids) == 0 || r.hasLine || r.pt != 0 || r.pb != 0 || r.hAuto || r.hv != 0 {
+			if r.through || len(r.kids) == 0 || r.hasLine || r.pt != 0 || r.pb != 0 || r.hAuto || r.hv != 0 || r.minH != 0 || r.minPctZero {
 				continue
 			}
 			all := true
@@ -396,15 +439,16 @@ func (c *cursor) place(r *rbox) {
 		}
 		r.ch = c.y - contentTop
 		r.rawBottom = c.y + r.pb
-		// §10.7: min-height (initial value 0) is a floor of the used height
-		if r.ch < 0 {
-			r.ch = 0
-			c.y = contentTop
+		// §10.7: the tentative height is cut to max-height, then raised to min-height (initial
+		// value 0: a floor of the used height)
+		if ch := r.clampH(r.ch); ch != r.ch {
+			c.y = contentTop + ch
+			r.ch = ch
 		}
 	} else {
 		// fixed height: whatever the content did, the bottom content edge is there; margins
 		// of the content that are still pending are not adjoining to anything that follows.
-		r.ch = r.hv
+		r.ch = r.clampH(r.hv)
 		ev.pending = c.pending
 		c.pending = nil
 		c.advance(contentTop + r.ch - c.y)
@@ -414,6 +458,11 @@ func (c *cursor) place(r *rbox) {
 	c.advance(r.pb)
 	r.bh = c.y - r.y
 	c.meet(bottom(r))
+}
+
+// clampH applies §10.7 to a tentative content height.
+func (r *rbox) clampH(h float64) float64 {
+	return math.Max(math.Min(h, r.maxH), r.minH)
 }
 
 // tagWalk computes, for every edge, the sets of adjoining margins that lie immediately before
@@ -463,7 +512,7 @@ func buildRef(doc *docSpec, emptyReading bool) *refDoc {
 	body.verticalValues()
 	d.adjoining(emptyReading)
 	c := &cursor{d: d, done: map[int]bool{}}
-	d.root = &rbox{spec: newBox("html"), hAuto: true, observable: true, cbw: doc.pageW, bw: doc.pageW}
+	d.root = &rbox{spec: newBox("html"), hAuto: true, observable: true, cbw: doc.pageW, bw: doc.pageW, maxH: math.Inf(1)}
 	c.events = append(c.events, event{kind: evTop, box: d.root})
 	c.place(body)
 	c.flush()
